@@ -161,6 +161,7 @@ def make_algo(a):
 
 
 PRESET_COMM = [None]
+SHARED = [None]      # {(name, multiplier, lazy): Security} while a case with share_objects is being built
 
 
 def build_node(spec, parent=None):
@@ -169,7 +170,15 @@ def build_node(spec, parent=None):
         m = fx(mult)
         n = name_of(i)
         if cls == "sec":
-            return n if lz == "str" else core.Security(n, multiplier=m, lazy_add=bool(lz))
+            if lz == "str":
+                return n
+            if SHARED[0] is not None:
+                # the user defines one Security object per ticker and hands it to every strategy that trades it
+                key = (n, m, bool(lz))
+                if key not in SHARED[0]:
+                    SHARED[0][key] = core.Security(n, multiplier=m, lazy_add=bool(lz))
+                return SHARED[0][key]
+            return core.Security(n, multiplier=m, lazy_add=bool(lz))
         if cls == "fi":
             return core.FixedIncomeSecurity(n, multiplier=m, lazy_add=bool(lz))
         if cls == "coupon":
@@ -202,6 +211,9 @@ def build_node(spec, parent=None):
                 d[c] = c
             else:
                 nm = c.name
+                if not isinstance(c, core.StrategyBase):
+                    import copy
+                    c = copy.deepcopy(c)          # a shared Security object keeps its own name
                 c.name = "tmp_" + nm
                 d[nm] = c
         children = d
